@@ -43,11 +43,13 @@ func graphs() map[string][]refsem.Tuple {
 		"none":     {tid("o2", "a", "u"), tid("o1", "b", "v")},
 		// two parents under the traversed relation; the subject is reachable only through the FIRST
 		// parent and there only through a subject-set indirection (pagination with page size 1 needs it too)
-		"twoparents": {tss("o1", "a", "o2", ""), tss("o1", "a", "o3", ""), tss("o2", "b", "g1", "b"), tid("g1", "b", "u")},
+		"twoparents": {tss("o1", "a", "o2", ""), tss("o1", "a", "o3", ""), tss("o2", "b", "g1", "b"), tss("o2", "p", "g1", "b"), tid("g1", "b", "u")},
+		// ... and only through the SECOND parent (the deciding row sits on the second listing page)
+		"twoparents2": {tss("o1", "a", "o3", ""), tss("o1", "a", "o2", ""), tss("o2", "b", "g1", "b"), tss("o2", "p", "g1", "b"), tid("g1", "b", "u")},
 	}
 }
 
-var graphOrder = []string{"direct", "chain", "cycle", "parents", "shared", "deepdup", "none", "twoparents"}
+var graphOrder = []string{"direct", "chain", "cycle", "parents", "shared", "deepdup", "none", "twoparents", "twoparents2"}
 
 // sCatalogue: every expression with <= k leaves over the leaf kinds x graphs x queries, default mode
 // (untyped literal namespaces), without recursion through `not`.
